@@ -1,3 +1,4 @@
 -- every line-protocol driver (what Main.lean needs)
 import SmVerif.Model.DriverMh
 import SmVerif.Model.DriverOwn
+import SmVerif.Model.DriverNg
